@@ -199,3 +199,42 @@ def localtime_order(a, b):
     ok = (x == y) == (a == b) and (x != y) == (a != b) and (x < y) == (a < b) and (x <= y) == (a <= b) and (x > y) == (a > b) and (x >= y) == (a >= b)
     return ok and (c < 0) == (a < b) and (c > 0) == (a > b) and LocalTime.max(x, y).nanosecond_of_day == max(a, b) and \
         LocalTime.min(x, y).nanosecond_of_day == min(a, b)
+
+
+BASE_DATES = [(2023, 1, 30), (2023, 1, 31), (2023, 2, 28), (2024, 2, 29), (2023, 3, 31), (2023, 12, 31)]
+
+
+@lemma({"n": int, "hh": int, "ns": int, "mo": int, "yy": int, "dd": int}, params=[[i, sg] for i in range(len(BASE_DATES)) for sg in ("+", "-")],
+       budget=500, per_path=60,
+       bounds="LocalDateTime.plus(period) / minus for a period with years in -1..1, months in -2..2, days in -2..2 AND time units (hours in "
+              "+-30, nanoseconds in +-1 day) from any time of day on six ISO dates at month ends (where month arithmetic clamps): the date "
+              "units are applied first, most significant first, and the days carried by the time units last; the time of day is exact")
+def ldt_plus_period_order(P):
+    from props import calsetup as cs
+    from props import ymdrecord
+    from pyoda_time import LocalDate, LocalDateTime, Period
+    from props.daycal import install_iso_plus_days_contract
+    cs.prepare("ISO")
+    ymdrecord.install()
+    install_iso_plus_days_contract()          # plus_days = day number + n (C09); years and months keep running for real
+    y, m, d = BASE_DATES[P[0]]
+    neg = P[1] == "-"
+
+    def h(n, hh, ns, mo, yy, dd):
+        assume(0 <= n < NPD)
+        assume(-30 <= hh <= 30)
+        assume(-NPD <= ns <= NPD)
+        assume(-2 <= mo <= 2)
+        assume(-1 <= yy <= 1)
+        assume(-2 <= dd <= 2)
+        mo, yy = int(mo), int(yy)                         # fork over the (few) month / year amounts
+        base = LocalDate(y, m, d)
+        ldt = LocalDateTime._ctor(local_date=base, local_time=T(n))
+        period = Period.from_years(yy) + Period.from_months(mo) + Period.from_days(dd) + Period.from_hours(hh) + Period.from_nanoseconds(ns)
+        r = ldt.minus(period) if neg else ldt.plus(period)
+        sgn = -1 if neg else 1
+        total = n + sgn * (hh * 3600 * 10 ** 9 + ns)
+        carry = total // NPD
+        want_date = base.plus_years(sgn * yy).plus_months(sgn * mo).plus_days(sgn * dd + carry)
+        return r.nanosecond_of_day == total % NPD and r.date._days_since_epoch == want_date._days_since_epoch
+    return h
